@@ -41,9 +41,19 @@ def fock (j : Json) : R Json := do
     | .error e => pure (jErr e)
     | .ok (k, t) => pure <| Json.mkObj [("k", jnat k), ("t", flat (2 * k) t)]
   | "backendState" =>
-    match fockBackendState GInt.conj D n pure? (getModesOpt j) ψ with
+    -- `map`: the ModeMap of the register (`null` = deleted subsystem); default: no holes
+    let map : List (Option Nat) := match j.getObjVal? "map" with
+      | .ok (Json.arr a) => a.toList.map fun x => x.getNat?.toOption
+      | _ => (List.range n).map some
+    match fockBackendStateR GInt.conj D n pure? map (getModesOpt j) ψ with
     | .error e => pure (jErr e)
-    | .ok (p, k, t) => pure <| Json.mkObj [("pure", Json.bool p), ("k", jnat k), ("t", flat (if p then k else 2 * k) t)]
+    | .ok (p, k, t, labels) =>
+      pure <| Json.mkObj [("pure", Json.bool p), ("k", jnat k), ("t", flat (if p then k else 2 * k) t), ("labels", natList labels)]
+  | "reducedDmLetters" =>
+    -- the einsum of the letter string itself (valid ascending lists only)
+    pure <| Json.mkObj [("k", jnat modes.length), ("t", flat (2 * modes.length)
+      (einsumLetters D (indList n modes) (2 * modes.length) ρ)),
+      ("ind", jarr ((indList n modes).map fun p => natList [p.1, p.2]))]
   | "dm" => pure <| flat (2 * n) ρ
   | "trace" => pure <| jGInt (fockTrace gNsq gRe D n pure? ψ)
   | "probs" => pure <| flat n (if pure? then probsPure gNsq ψ else probsMixed gRe ψ)
@@ -103,9 +113,21 @@ def gauss (j : Json) : R Json := do
     | .error e => pure (jErr e)
     | .ok (k, r) => pure <| Json.mkObj ([("k", jnat k)] ++ jG (2 * k) r)
   | "backendState" =>
-    match gaussBackendState n modes g with
+    let active := match getNatList j "active" with
+      | .ok l => l
+      | .error _ => List.range n
+    match gaussBackendStateA n active (getModesOpt j) g with
     | .error e => pure (jErr e)
-    | .ok (k, r) => pure <| Json.mkObj ([("k", jnat k)] ++ jG (2 * k) r)
+    | .ok (k, r, labels) => pure <| Json.mkObj ([("k", jnat k), ("labels", natList labels)] ++ jG (2 * k) r)
+  | "polyQuad" => do
+    let A ← getRatMat j "A"
+    let d ← getRatList j "d"
+    let k ← asRat (← j.getObjVal? "k")
+    let hbar ← asRat (← j.getObjVal? "hbar")
+    let c ← asRat (← j.getObjVal? "c")
+    let s ← asRat (← j.getObjVal? "s")
+    let r := gaussPolyQuad hbar n (fun a b => (A.getD a #[]).getD b 0) (fun a => d.getD a 0) k (getBoolD j "rotate" false) c s g
+    pure <| jarr [jrat r.1, jrat r.2]
   | "meanPhoton" => do
     let mode ← getNat j "mode"
     let hbar ← asRat (← j.getObjVal? "hbar")
@@ -138,6 +160,26 @@ def bosonic (j : Json) : R Json := do
   match kind with
   | "reducedBosonic" => pure <| out (reducedBosonic n modes)
   | "backendState" => pure <| out (bosonicBackendState n modes)
+  | "labels" => pure <| natList (bosonicBackendLabels modes)
+  | "meanPhoton" | "quad" | "marginal" => do
+    let comps ← getArr j "comps"
+    let cs ← comps.mapM fun cj => do
+      let w ← asRat (← cj.getObjVal? "w")
+      let mu ← getRatList cj "mu"
+      let cov ← getRatMat cj "cov"
+      pure (w, ({ mu := fun a => mu.getD a 0, cov := fun a b => (cov.getD a #[]).getD b 0 } : GData Rat))
+    if kind == "meanPhoton" then
+      let hbar ← asRat (← j.getObjVal? "hbar")
+      let r := bosonicMeanPhoton hbar cs
+      pure <| jarr [jrat r.1, jrat r.2]
+    else
+      let c ← asRat (← j.getObjVal? "c")
+      let s ← asRat (← j.getObjVal? "s")
+      if kind == "quad" then
+        let r := bosonicQuad c s cs
+        pure <| jarr [jrat r.1, jrat r.2]
+      else
+        pure <| jarr ((bosonicMarginalParams c s cs).map fun t => jarr [jrat t.1, jrat t.2.1, jrat t.2.2])
   | "ind" => pure <| natList (bosonicInd modes)
   | "displacementInd" => pure <| natList (bosonicDisplacementInd modes)
   | "walrus" =>
